@@ -79,6 +79,10 @@ def pinned_cases():
            ['query', 'B', 'recv_bundle_get_queue'], ['pop', 'B'], ['query', 'B', 'pop_twice'], ['query', 'B', 'pop_unknown'],
            ['query', 'A', 'get_connections']]
     yield 'queries', {'kind': 'tcpcl', 'cfg': cfg, 'ops': ops}
+    # a TLS session in which both certificates name address and node ID: the authentication results are reported
+    yield 'queries-tls-cert', {'kind': 'tcpcl', 'cfg': dict(cfg, tls='cert'),
+                               'ops': [['estab'], ['query', 'A', 'get_session_parameters'], ['query', 'B', 'get_session_parameters'],
+                                       ['query', 'A', 'is_secure'], ['send', 'B', 5, 2], ['run', [0, 1] * 10]]}
     yield 'stack-reconnect', {'kind': 'stack', 'keepalive': 0, 'hops': ['tcpcl', 'udpcl'], 'umtu': 100, 'rmtu': None, 'size': 300,
                               'ops': [['send', 1, 3, True, 0], ['cut', 2], ['send', 3, 1, False, 1], ['send', 1, 3, True, 1]]}
     yield 'stack-finish-then-terminate', {'kind': 'stack', 'hops': ['tcpcl', 'tcpcl'], 'keepalive': 10, 'rmtu': 150, 'size': 8, 'umtu': None,
